@@ -99,7 +99,7 @@ def check(run):
     if not thorough:
         specs = [s for i, s in enumerate(specs) if i % 2 == run.seed % 2 or s.prefix == "é界/"]
     r = gen.rng_for(run.seed, "c03")
-    for i in range(4000 if thorough else 600):
+    for i in range(6000 if thorough else 1500):
         s = strgen.build(r, "R%d" % i, list(A_DERIVES), allow_default=False, allow_aci=True, allow_prefix=True, distinct_lengths=True,
                          generics_pool=(None, None, "T", "N", "Tw", "Tdef"), n=(40 if i in (5, 6) else r.choice([1, 2, 3, 5, 7])), dup_within_variant=False, allow_braces=True)
         s.const_into_str = r.random() < 0.4
